@@ -180,6 +180,11 @@ def _canon(e):
         return ("ite", c, a, b)
     # ---- iteration over a dict: `for k, v in d.items()`, `for v in d.values()` and `for k in d: d[k]` name the same things
     if t == "elem" and len(e) == 3:
+        it0 = e[1]
+        while isinstance(it0, tuple) and it0 and it0[0] == "call" and it0[1] in ("list", "tuple") and len(it0[2]) == 1 and not it0[3]:
+            it0 = it0[2][0]
+        if it0 is not e[1]:
+            return canon(("elem", it0, e[2]))
         di = _dict_iter(e[1])
         if di is not None:
             kind, X = di
@@ -210,7 +215,10 @@ def _canon(e):
             filt = tuple(sorted(set((canon(a), bool(p)) for a, p in e[4]), key=repr))
         except Exception:
             filt = _canon_any(e[4])
-        return ("comp", e[1], _canon_any(e[2]) if not (isinstance(e[2], tuple) and e[2] and isinstance(e[2][0], str)) else canon(e[2]), canon(e[3]) if isinstance(e[3], tuple) else e[3], filt)
+        it = e[3]
+        while isinstance(it, tuple) and it and it[0] == "call" and it[1] in ("list", "tuple") and len(it[2]) == 1 and not it[3]:
+            it = it[2][0]  # iterating a snapshot of xs is iterating xs
+        return ("comp", e[1], _canon_any(e[2]) if not (isinstance(e[2], tuple) and e[2] and isinstance(e[2][0], str)) else canon(e[2]), canon(it) if isinstance(it, tuple) else it, filt)
     if t == "dictmerge" and len(e) == 3:
         a, b = e[1], e[2]
         # the result is a new dict either way: a copy of the first operand is the first operand
